@@ -174,14 +174,19 @@ def summarise(eng):
             'checks_unsat': eng.checks_unsat, 'exhausted': eng.exhausted,
             'inconclusive': list(eng.inconclusive),
             'violations': [v.to_json() for v in eng.violations],
-            'witnesses': list(eng.witnesses), 'samples': eng.samples[:2]}
+            'witnesses': list(eng.witnesses), 'samples': eng.samples[:2],
+            'witness_models': dict(list(eng.witnesses.items())[:3])}
 
 
 def merge_summaries(sms):
     out = {'paths': 0, 'queries': 0, 'solver_s': 0.0, 'checks': 0,
            'checks_unsat': 0, 'exhausted': True, 'inconclusive': [],
-           'violations': [], 'witnesses': [], 'samples': []}
+           'violations': [], 'witnesses': [], 'samples': [],
+           'witness_models': {}}
     for sm in sms:
+        for k, v in (sm.get('witness_models') or {}).items():
+            if len(out['witness_models']) < 3:
+                out['witness_models'].setdefault(k, v)
         for k in ('paths', 'queries', 'solver_s', 'checks', 'checks_unsat'):
             out[k] += sm[k]
         out['exhausted'] = out['exhausted'] and sm['exhausted']
@@ -358,6 +363,20 @@ def _drive_one(oid, case, res, tmo):
     res.add_summary(sm, case=case.name, needed=case.needed)
     if sm.get('shards'):
         res.notes.append('%s: %d shards' % (case.name, sm['shards']))
+    # the reachability witnesses are replayed concretely: the real code is
+    # driven along the witness path with the solver's values
+    for label, model in list((sm.get('witness_models') or {}).items())[:2]:
+        ce = symx.ConcreteEngine(model)
+        try:
+            ce.run(fn)
+            ok = label in ce.witnesses
+        except BaseException as e:  # noqa
+            ok = False
+        res.replays += 1
+        if not ok:
+            res.inconclusive.append(
+                '%s: witness %s did not replay concretely' % (case.name,
+                                                              label))
     seen = set()
     for v in res.violations[n0:]:
         v['signature'] = signature_of(oid, case.name, v)
